@@ -707,6 +707,11 @@ def inline_private_helpers(F, fn, depth=2, max_blocks=4000, light=True, also_typ
             conv_impl = (g.j.get("trait") or "").split("<")[0] in ("std::convert::From", "std::convert::TryFrom", "std::default::Default") \
                 and g.loc.get("f") == fn.loc.get("f") and g_ty in F.adt_by_name and g_ty not in heavy_types(F) \
                 and (F.adt_by_name[g_ty].get("loc") or {}).get("f", g.loc.get("f")) == g.loc.get("f")
+            # an impl of a *private helper trait of the caller's file* (`trait Guarded` implemented for Request and Notification so
+            # that one generic function serves both): its methods are helpers of that file
+            if g.j.get("trait") and not conv_impl and (g.j.get("trait_vis") or "Public") != "Public" \
+                    and (g.j.get("trait_loc") or {}).get("f") == fn.loc.get("f") == g.loc.get("f"):
+                conv_impl = True
             if (g.j.get("trait") and not conv_impl) or g.j.get("in_trait") or g.id in getattr(F, "_anchor_ids", ()):
                 continue
             if (g.j.get("method") or g.name.split("::")[-1]) in anchors and g_ty not in also_types and g.id not in also_types and not conv_impl:
@@ -776,6 +781,15 @@ def inline_private_helpers(F, fn, depth=2, max_blocks=4000, light=True, also_typ
                       "from": gb.get("from") or [g.id, gbi]}
                 if gmap:
                     nb = _subst_generics(nb, gmap)
+                    tt = nb["term"]
+                    f2 = (tt.get("func") or {}).get("fn") if tt.get("k") == "call" else None
+                    if f2 and f2.get("trait") and not f2.get("res") and f2.get("self_ty"):
+                        # `message.guarded_method()` with T := Request: the impl is now known
+                        want_ty = re.sub(r"<.*$", "", re.sub(r"^&(mut )?", "", f2["self_ty"])).strip()
+                        cands = [g2 for g2 in F.fns.values() if g2.j.get("trait") == f2["trait"] and g2.j.get("method") == f2.get("method") and g2.blocks
+                                 and re.sub(r"<.*$", "", g2.j.get("self_ty") or "").strip() == want_ty]
+                        if len(cands) == 1:
+                            f2["res"] = {"id": cands[0].id, "path": cands[0].name, "full": cands[0].name, "local": True, "kind": "Item"}
                 if gb.get("cleanup"):
                     nb["cleanup"] = True
                 if gb["term"]["k"] == "return":
